@@ -56,4 +56,35 @@ struct verif_hdr_flags { unsigned char immutablep:1, freep:1, brokenp:1, syntact
 #define sexp_env_cell_syntactic_p(x) (VERIF_FLAGS(x).syntacticp)
 #define sexp_env_syntactic_p(x)     (VERIF_FLAGS(x).syntacticp)
 
+/* Sign tests on a fixnum held in a pointer (third substitution, DESIGN 1.1).
+ * CBMC's expression simplifier assumes that a pointer cast to a signed integer
+ * is never negative and folds `(sexp_sint_t)p < 0` to false (reproduction in
+ * DESIGN); `((sexp_sint_t)p) >> 63` is modelled faithfully.  The two header
+ * macros that test the sign this way are re-expressed through the shift; same
+ * value on every two's-complement target. */
+#define VERIF_SNEG(a) ((((sexp_sint_t)(a)) >> (8 * sizeof(sexp_sint_t) - 1)) != 0)
+#undef sexp_fx_abs
+#undef sexp_unbox_fx_abs
+#define sexp_fx_abs(a)       (VERIF_SNEG(a) ? sexp_fx_neg(a) : a)
+#define sexp_unbox_fx_abs(a) (VERIF_SNEG(a) ? -sexp_unbox_fixnum(a) : sexp_unbox_fixnum(a))
+
+/* Opt-in (-DVERIF_UF_MUL): the 64x64->128 word multiplication is an uninterpreted function
+ * shared by the code and the specification (only congruence is used).  SAT cannot decide
+ * equalities between two bit-blasted 64-bit multipliers in reasonable time; listed as an
+ * assumption by every group that uses it. */
+#ifdef VERIF_UF_MUL
+unsigned long __CPROVER_uninterpreted_mulhi64(unsigned long, unsigned long);
+unsigned long __CPROVER_uninterpreted_mullo64(unsigned long, unsigned long);
+static inline sexp_luint_t verif_mul_uf(sexp_luint_t a, sexp_uint_t b) {
+  __CPROVER_assert((a >> 64) == 0, "uf_mul.precondition: first factor is a single word");
+  unsigned long hi = __CPROVER_uninterpreted_mulhi64((unsigned long)a, b);
+  /* the one arithmetic fact about products the carry logic depends on:
+     a*b <= (2^64-1)^2 = 2^128 - 2^65 + 1, so the high word is at most 2^64-2 */
+  __CPROVER_assume(hi != ~0UL);
+  return ((sexp_luint_t)hi << 64) | __CPROVER_uninterpreted_mullo64((unsigned long)a, b);
+}
+#undef luint_mul_uint
+#define luint_mul_uint(a, b) verif_mul_uf((sexp_luint_t)(a), (sexp_uint_t)(b))
+#endif
+
 #endif
